@@ -603,6 +603,10 @@ func getKeyspaceMetadata(session *Session, keyspaceName string) (*KeyspaceMetada
 
 		iter := session.control.query(stmt, keyspaceName)
 		if iter.NumRows() == 0 {
+			// a failed query has no rows either: that is not "the keyspace does not exist"
+			if err := iter.Close(); err != nil {
+				return nil, fmt.Errorf("error querying keyspace schema: %v", err)
+			}
 			return nil, ErrKeyspaceDoesNotExist
 		}
 		iter.Scan(&keyspace.DurableWrites, &replication)
@@ -629,6 +633,10 @@ func getKeyspaceMetadata(session *Session, keyspaceName string) (*KeyspaceMetada
 
 		iter := session.control.query(stmt, keyspaceName)
 		if iter.NumRows() == 0 {
+			// a failed query has no rows either: that is not "the keyspace does not exist"
+			if err := iter.Close(); err != nil {
+				return nil, fmt.Errorf("error querying keyspace schema: %v", err)
+			}
 			return nil, ErrKeyspaceDoesNotExist
 		}
 		iter.Scan(&keyspace.DurableWrites, &keyspace.StrategyClass, &strategyOptionsJSON)
